@@ -282,12 +282,17 @@ func c14Requests(rng *rand.Rand, g *jgen, ops []c14op, base string, per int, cfg
 	for n := 0; n < per; n++ {
 		op := ops[rng.Intn(len(ops))]
 		cfg := cfgs[rng.Intn(len(cfgs))] + cfgExtra
-		// a near-valid request for op, then one mutation class
+		// every third request is valid up to its body: every parameter typed and present once, every credential attached, the handler
+		// reached, so that what happens to the BODY is observed (the others: a near-valid request, then one mutation class)
+		allValid := n%3 == 0
+		if allValid {
+			cfg = []string{"authdflt=any", "mw=2,authdflt=any"}[rng.Intn(2)] + cfgExtra
+		}
 		var segs []string
 		for _, seg := range strings.Split(strings.TrimPrefix(op.pi.Raw, "/"), "/") {
 			if strings.HasPrefix(seg, "{") {
 				v := c14Segs[rng.Intn(len(c14Segs))]
-				if rng.Intn(3) != 0 {
+				if allValid || rng.Intn(3) != 0 {
 					for _, prm := range op.pi.Params {
 						if "{"+prm.Name+"}" == seg {
 							v = url.PathEscape(c14Valid(prm.Schema, rng))
@@ -303,16 +308,16 @@ func c14Requests(rng *rand.Rand, g *jgen, ops []c14op, base string, per int, cfg
 		q := url.Values{}
 		var hdrs [][2]string
 		for _, prm := range op.o.Params {
-			if rng.Intn(4) == 0 && !prm.Required {
+			if !allValid && rng.Intn(4) == 0 && !prm.Required {
 				continue
 			}
 			cnt := 1
-			if rng.Intn(4) == 0 {
+			if !allValid && rng.Intn(4) == 0 {
 				cnt = rng.Intn(4)
 			}
 			for k := 0; k < cnt; k++ {
 				v := c14Texts[rng.Intn(len(c14Texts))]
-				if rng.Intn(3) != 0 {
+				if allValid || rng.Intn(3) != 0 {
 					v = c14Valid(prm.Schema, rng)
 				}
 				if prm.In == "query" {
@@ -322,7 +327,13 @@ func c14Requests(rng *rand.Rand, g *jgen, ops []c14op, base string, per int, cfg
 				}
 			}
 		}
-		switch rng.Intn(4) {
+		credential := rng.Intn(4)
+		if allValid {
+			credential = 9
+			hdrs = append(hdrs, [2]string{"Authorization", "Bearer tok"}, [2]string{"X-Api-Key", "k"})
+			q.Add("api_key", "k")
+		}
+		switch credential {
 		case 0:
 			// every prefix length of a bearer credential, other schemes, wrong case, odd bytes
 			auth := []string{"Bearer tok", "tok", "", "Bearer ", "Basic xx", "bearer tok", "BEARER TOK", "Bearer  two-spaces", "Bearer\ttab", "Bearer tok extra", "Bearertok"}
@@ -345,7 +356,11 @@ func c14Requests(rng *rand.Rand, g *jgen, ops []c14op, base string, per int, cfg
 		}
 		method := op.o.Method
 		kind := "near-valid"
-		switch rng.Intn(12) {
+		mutation := rng.Intn(12)
+		if allValid {
+			kind, mutation = "valid-up-to-body", 11
+		}
+		switch mutation {
 		case 0:
 			path = strings.Replace(path, "/", "//", 1+rng.Intn(2))
 			kind = "doubled-slash"
